@@ -502,6 +502,18 @@ struct RecPortListener {
     ctx: Ctx,
 }
 
+/// pty mode: only tells the driver that the device has been opened
+struct PtyOpenFlag {
+    open: Arc<std::sync::atomic::AtomicBool>,
+}
+
+impl Listener<PortState> for PtyOpenFlag {
+    fn update(&mut self, value: PortState) -> MaybeAsync<()> {
+        self.open.store(matches!(value, PortState::Open), Ordering::SeqCst);
+        MaybeAsync::ready(())
+    }
+}
+
 impl Listener<PortState> for RecPortListener {
     fn update(&mut self, value: PortState) -> MaybeAsync<()> {
         let (state, d) = match value {
@@ -817,45 +829,55 @@ async fn run_pty_scenario(sc: &Scenario, sink: &Sink) {
             return;
         }
     };
+    let port_open = Arc::new(std::sync::atomic::AtomicBool::new(false));
     let (channel, task) = create_rtu_client_task(
         &pty.path,
         SerialSettings::default(),
         sc.queue,
         doubling_retry_strategy(Duration::from_millis(50), Duration::from_millis(50)),
         decode_level(&sc.decode),
-        None,
+        Some(Box::new(PtyOpenFlag { open: port_open.clone() })),
     );
     let task = tokio::spawn(task.run());
-    let quiet = |got: &mut Vec<u8>| {
-        let mut last = sink.progress();
-        let mut since = std::time::Instant::now();
+    // quiescence is decided by what the step must cause, not by a clock: a submitted request is either put on the bus or
+    // completed (rejected); a reply completes the outstanding request.  Only then does the silence window start -- a
+    // loaded machine may take long to schedule the channel task, and a marker written before it ran would be wrong.
+    let quiet = |got: &mut Vec<u8>, must_react: bool, before: u64| {
         let t0 = std::time::Instant::now();
-        while since.elapsed() < Duration::from_millis(50) && t0.elapsed() < Duration::from_secs(5) {
-            let n = pty.read_some(got);
-            let p = sink.progress();
-            if n > 0 || p != last {
-                last = p;
-                since = std::time::Instant::now();
+        if must_react {
+            while got.is_empty() && sink.progress() == before && t0.elapsed() < Duration::from_secs(15) {
+                pty.read_some(got);
+                std::thread::sleep(Duration::from_millis(1));
             }
-            std::thread::sleep(Duration::from_millis(2));
         }
+        pty.until_quiet(&|| sink.progress(), Duration::from_millis(50), got);
     };
     for st in &sc.steps {
+        let mut must_react = false;
+        let before;
         match st.op.as_str() {
             "cmd" if st.kind == "enable" => {
                 sink.emit(json!({"e":"cmd","kind":"enable"}));
                 let _ = channel.enable().await;
                 // the task opens and configures the device before anything is put on the bus
-                tokio::time::sleep(Duration::from_millis(250)).await;
+                let t0 = std::time::Instant::now();
+                while !port_open.load(Ordering::SeqCst) && t0.elapsed() < Duration::from_secs(15) {
+                    tokio::time::sleep(Duration::from_millis(5)).await;
+                }
+                tokio::time::sleep(Duration::from_millis(50)).await;
+                before = sink.progress();
             }
             "cmd" if st.kind == "decode" => {
                 sink.emit(json!({"e":"cmd","kind":"decode"}));
                 let _ = channel.set_decode_level(decode_level(&st.level)).await;
+                before = sink.progress();
             }
             "submit" => {
+                must_react = true;
                 sink.emit(json!({"e":"submit","r":st.r,"style":st.style,"fc":st.fc,"unit":st.unit,"start":st.start,
                     "count": if st.fc == 15 || st.fc == 16 { st.values.len() as u32 } else if st.fc == 5 || st.fc == 6 { 1 } else { st.count },
                     "values":st.values,"timeout":st.timeout}));
+                before = sink.progress();
                 if st.style == "callback" {
                     tokio::spawn(submit_callback(ctx.clone(), channel.clone(), st.clone()));
                 } else {
@@ -863,6 +885,8 @@ async fn run_pty_scenario(sc: &Scenario, sink: &Sink) {
                 }
             }
             "reply" | "peer" => {
+                // (the scripts of this mode answer every transmitted request with a well-formed reply or exception)
+                must_react = st.op == "reply";
                 let bytes = if st.op == "reply" {
                     let mut b = vec![st.unit];
                     b.extend_from_slice(&st.pdu);
@@ -874,6 +898,7 @@ async fn run_pty_scenario(sc: &Scenario, sink: &Sink) {
                     st.bytes.clone()
                 };
                 sink.emit(json!({"e":"peer","bytes":bytes_json(&bytes)}));
+                before = sink.progress();
                 if !pty.write_all(&bytes) {
                     sink.emit(json!({"e":"stuck","why":"the bus does not take the bytes"}));
                     return;
@@ -883,7 +908,7 @@ async fn run_pty_scenario(sc: &Scenario, sink: &Sink) {
         }
         let mut got = Vec::new();
         // (the submitting tasks run on other worker threads; block this one while watching the bus)
-        tokio::task::block_in_place(|| quiet(&mut got));
+        tokio::task::block_in_place(|| quiet(&mut got, must_react, before));
         if !got.is_empty() {
             sink.emit(json!({"e":"tx","bytes":bytes_json(&got)}));
         }
